@@ -118,5 +118,14 @@ MixedOrig == \A w, v \in W : (w # v /\ init0.orig[w] = init0.orig[v]) => FALSE
 \* schedules with re-use are printed once every re-using writer is in its last round (or dead)
 LastRound == \A w \in Reusers : wr[w].round = MaxRounds \/ wr[w].pc = "dead"
 NoAbnormal == Abnormal = 0
+\* re-use after a handled failure: the only abnormal event is a body exception or a failing close
+\* (final flush or close itself) or rename in the first round of a writer that is used again
+AbnStep == \/ faults' < faults
+           \/ \E w \in W : wr'[w].pc = "dead" /\ wr[w].pc # "dead"
+           \/ \E w \in W : wr'[w].err = "body" /\ wr[w].err # "body"
+ReuseAbnormal == AbnStep => \E w \in Reusers :
+                    /\ wr[w].round < MaxRounds /\ wr'[w] # wr[w] /\ wr'[w].pc # "dead"
+                    /\ wr[w].pc \in {"body", "closing", "renaming"}
+                    /\ (faults' < faults => wr[w].pc \in {"closing", "renaming"})
 EmitPath == (AllFinished' /\ LastRound') => PrintT(ToJson([tag |-> "PATH", init |-> init0, ev |-> hist']))
 =============================================================================
